@@ -284,6 +284,22 @@ def file_monotone_stream(ctx, stream, n):
             mp = "proj" if rng.random() < 0.7 else rng.choice(dirs)
             cases.append((tree, tree2, mp, rng.choice([None, None, 1, 2]), rng.randrange(1 << 30)))
             continue
+        anyfrom = [m for m in _re.finditer(r"(?m)^[ \t]*from (\.*)([\w.]*) import ([A-Za-z_]\w*(?:, [A-Za-z_]\w*)*)[ \t]*$", body)]
+        if anyfrom and rng.random() < 0.25:
+            # the added statement is a NEAR-COPY of a statement the file already has: same module text and names, another
+            # relative level and / or an alias; later in the file, at top level or nested
+            m = rng.choice(anyfrom)
+            dots = rng.choice([d for d in ["", ".", "..", "..."] if d != m.group(1) and (d or m.group(2))])
+            names = m.group(3).split(", ")
+            if rng.random() < 0.5:
+                names[-1] += " as zz_alias"
+            st2 = f"from {dots}{m.group(2)} import {', '.join(names)}\n"
+            st2 = rng.choice([st2, "def _late():\n    " + st2, "try:\n    " + st2 + "except ImportError:\n    pass\n"])
+            tree2[f] = (body if body.endswith("\n") else body + "\n") + st2
+            dirs = sorted(p for p, v in tree.items() if v is None)
+            mp = "proj" if rng.random() < 0.7 else rng.choice(dirs)
+            cases.append((tree, tree2, mp, rng.choice([None, None, 1, 2]), rng.randrange(1 << 30)))
+            continue
         # the new statement goes to the front, to the end, or between two existing top-level chunks: which import of a file
         # is converted first must not matter
         lines = body.split("\n")
